@@ -189,6 +189,68 @@ def check_histories(rep, histories, label, flavour="plain", sample_every=0):
     return traces, acc
 
 
+def driver_histories(tier, seed, kinds=KINDS):
+    """simulate_script(script, engine) through the recording proxy: alone, repeated on the same object, after plain
+    calls, with and without progress printing, for every lifecycle configuration x engine kind x space type."""
+    rng = random.Random(seed * 101 + 7)
+    out = []
+    n = 0
+    for kind in kinds:
+        for space in ("grid", "graph", "graphloop"):
+            cfgs = cfgs_for(kind, space)
+            for cid in sorted(cfgs):
+                for pp in (0, 1):
+                    shapes = [[["simulate", "e1", cid, pp]],
+                              [["simulate", "e1", cid, pp], ["simulate", "e1", cid, 1 - pp]],
+                              [["setup", "e1", cid], ["iterate", "e1"], ["simulate", "e1", cid, pp], ["is_complete", "e1"]],
+                              [["setup", "e1", cid], ["iterate_n", "e1", 50], ["get_output", "e1"], ["simulate", "e1", cid, pp],
+                               ["finalize", "e1"], ["simulate", "e1", sorted(cfgs)[(sorted(cfgs).index(cid) + 1) % len(cfgs)], pp]]]
+                    for calls in shapes:
+                        out.append({"id": "drv%d" % n, "kinds": {"e1": kind}, "cfgs": cfgs, "calls": calls, "view": "own"})
+                        n += 1
+    if tier == "quick":
+        out = [h for i, h in enumerate(out) if i % 2 == seed % 2 or len(h["calls"]) == 1]
+    return out
+
+
+def check_driver_histories(rep, histories, label="driver"):
+    """Record the calls simulate_script makes on the engine handed to it and validate them against Trace_Simulate."""
+    from .vlib.report import MachineryError
+    traces = engine_val.record(histories)
+    byid = {h["id"]: h for h in histories}
+    acc, res = engine_val.validate(traces, cfg="Trace_Simulate", module="Trace_Simulate")
+    for r in res:
+        rep.add_tlc("Trace_Simulate[%s]" % label, r)
+        if not r.ok:
+            raise MachineryError("TLC failed on driver traces: %s\n%s" % (r.error, r.tail(15)))
+    nev = 0
+    for t in traces:
+        nev += len(t["ev"])
+        rep.case(["driver", t["ev"]], nontrivial=len(t["ev"]) > 4)
+    rep.traces += len(traces)
+    rep.extra["driver_events_validated"] = rep.extra.get("driver_events_validated", 0) + nev
+    ndiag = 0
+    for t in traces:
+        if t["id"] in acc:
+            continue
+        h = byid[t["id"]]
+        ndiag += 1
+        if ndiag > 6:
+            rep.violations.append({"check": "driver-trace", "signature": "driver-trace:not-diagnosed", "detail": {"history": h["calls"], "kinds": h["kinds"]}})
+            continue
+        i = engine_val.accepted_prefix(t, "Trace_Simulate", "Trace_Simulate")
+        bad = t["ev"][i] if i < len(t["ev"]) else {"call": "END"}
+        prev = t["ev"][i - 1]["call"] if i else "start"
+        rep.violation("driver-trace", "driver-trace:%s:after-%s" % (bad.get("call") if bad.get("call") != "EXC" else "EXC-in-" + str(bad.get("in")), prev),
+                      {"history": h["calls"], "kinds": h["kinds"], "cfgs": h["cfgs"], "accepted_prefix": i, "rejected_event": bad,
+                       "events": [e.get("call") for e in t["ev"]][:40]},
+                      replay={"kind": "driver-history", "history": h})
+    if traces:
+        t = traces[0]
+        rep.sample({"driver_history": byid[t["id"]]["calls"], "calls_made_by_the_driver": [e.get("call") for e in t["ev"]], "accepted": t["id"] in acc})
+    return traces, acc
+
+
 MAX_DIAG = 12
 
 
